@@ -23,7 +23,7 @@ type Case struct {
 }
 
 var ops = []string{"add", "sub", "mul", "quo", "round", "quantize", "rtie"}
-var base = arith.Gen(ops, 60, false)
+var base = arith.Gen(ops, 400, false)
 
 func genCase(t *rapid.T) Case {
 	c := Case{Case: base(t)}
@@ -291,6 +291,21 @@ func adjacent(c Case, fl, ce run) error {
 	diff := new(big.Int).Sub(sv(g), sv(f))
 	if diff.Cmp(ref.Pow10(q-e)) != 0 {
 		return fmt.Errorf("%v: floor=%s and ceiling=%s are not adjacent representable values", c.Case, show(fl), show(ce))
+	}
+	// "Adjacent representable values" of a Precision-digit format are one unit of the
+	// Precision-th digit apart: for results in the normal range the spacing must be
+	// 10^(adjusted exponent - Precision + 1) of the value nearer to zero (results that
+	// differ are inexact, so they carry all Precision digits). Quantize and
+	// RoundToIntegralExact prescribe their own exponent instead.
+	if c.Op != "quantize" && c.Op != "rtie" && fl.res&apd.Subnormal == 0 && ce.res&apd.Subnormal == 0 && !fz && !gz {
+		small := f
+		if cmpAbs(g, f) < 0 {
+			small = g
+		}
+		adj := int64(small.Exponent) + ref.NDigits(small.Coeff.MathBigInt()) - 1
+		if want := adj - int64(c.Ctx.P) + 1; q != want {
+			return fmt.Errorf("%v: floor=%s and ceiling=%s are 10^%d apart, adjacent %d-digit values there are 10^%d apart", c.Case, show(fl), show(ce), q, c.Ctx.P, want)
+		}
 	}
 	return nil
 }
